@@ -593,6 +593,8 @@ def owners(clause: str, event: Optional[Dict[str, Any]] = None) -> set:
         own.add('C05')
     if ev == 'play' and parts.get('exp') != parts.get('got'):
         own.add('C05')
+        if mode == 'hands' and parts.get('exp') == 'raises' and parts.get('got') == 'ok':
+            own.add('C11')      # the manager accepted what every replica (rightly) refuses
     return own or {'C04', 'C05', 'C06', 'C11'}
 
 
